@@ -36,6 +36,10 @@ def handle (α : Type) [Arith α] [Wire α] : List Sexp → Sexp
     match (decNumS tol : Option α), decInstance (α := α) d cs es with
     | some tol, some (d, cs, es) => encReport (analyzeBounds d cs es tol Gen.boundsMaxSteps)
     | _, _ => app "err" [.atom "decode"]
+  | [.atom "linbounds", tol, .list (.atom "domain" :: d), .list (.atom "constraints" :: cs)] =>
+    match (decNumS tol : Option α), decInstance (α := α) d cs [] with
+    | some tol, some (d, cs, _) => encReport (linearizerBounds d cs tol Gen.boundsMaxSteps)
+    | _, _ => app "err" [.atom "decode"]
   | [.atom "analyze-steps", .atom n, tol, .list (.atom "domain" :: d), .list (.atom "constraints" :: cs), .list (.atom "exprs" :: es)] =>
     match n.toNat?, (decNumS tol : Option α), decInstance (α := α) d cs es with
     | some n, some tol, some (d, cs, es) => encReport (analyzeBounds d cs es tol n)
